@@ -24,15 +24,15 @@ RULE = ('case = (searcher kind, ordered pattern list with markers, stream, split
 ASSUMPTIONS = ['patterns from the listed pools (no lookbehind / ^ under a window, whose meaning depends on text outside the searched slice)',
                'alphabet {a,b}, stream length bound as in bounds']
 REQUIRED_FLAGS = {'tie_at_start': 1, 'boundary_inside_match': 1, 'marker_before_match': 1,
-                  'zero_width': 1, 'prior_trimmed': 1}
+                  'zero_width': 1, 'prior_trimmed': 1, 'window_smaller_than_pending_at_call': 1}
 
 RE_POOL = ['a', 'ab', 'b', 'a|ab', 'ab|a', 'b*', '(a)(b)?', '[ab]b', 'a$', 'aba']
-EX_POOL = ['a', 'ab', 'b', 'ba', 'aba']
+EX_POOL = ['a', 'ab', 'b', 'ba', 'aba', '']
 
 
 def bounds(tier):
     q = tier == 'quick'
-    return dict(max_list_len=2 if q else 3, max_stream=4 if q else 5, windows=[None, 2, 3],
+    return dict(max_list_len=2 if q else 3, max_stream=4 if q else 5, windows=[None, 2, 3, 'None then 2', '3 then 1'],
                 re_pool=RE_POOL, exact_pool=EX_POOL,
                 prior=['none', 'exact-bb-timeout@every-chunk'] + ([] if q else ['re-bb-W1-timeout@every-chunk']))
 
@@ -122,9 +122,13 @@ def run_case(acc, task, names, stream, cuts, W, prior, check=True):
             acc.flags['prior_trimmed'] += 1
     limit[0] = len(chunks)
     judged = 0
+    Wseq = tuple(W) if isinstance(W, (tuple, list)) else (W,)      # the window may change from call to call
     for _round in range(len(stream) + 3):
         del received[:]
         P = pending
+        W = Wseq[min(_round, len(Wseq) - 1)]
+        if W and len(P) > W:
+            acc.flags['window_smaller_than_pending_at_call'] += 1
         try:
             if kind == 're':
                 i = sp.expect(pats, timeout=5, searchwindowsize=W)
@@ -212,7 +216,7 @@ def run_case(acc, task, names, stream, cuts, W, prior, check=True):
             if check:
                 key = '%s:W=%s:%s:%s' % (kind, W, bad[0], names[i] if isinstance(i, int) and 0 <= i < len(names) else '?')
                 acc.violation(key, bad[1], dict(task=task, names=list(names), stream=stream,
-                                                cuts=list(cuts), W=W, prior=prior))
+                                                cuts=list(cuts), W=(list(Wseq) if len(Wseq) > 1 else Wseq[0]), prior=prior))
             break
         pending = sp.buffer
         if not sp.after and not D and pending == P:
@@ -234,8 +238,8 @@ def run_task(task):
             for cuts in refs.splittings(len(stream)):
                 nch = len(cuts) + 1
                 priors = [None] + [(pk, j) for pk in priors_kinds for j in range(nch + 1)]
-                for W in (None, 2, 3):
-                    for prior in priors:
+                for W in (None, 2, 3, (None, 2), (3, 1)):
+                    for prior in (priors if not isinstance(W, tuple) else [None]):
                         obs, viols, judged = run_case(acc, task, names, stream, cuts, W, prior)
                         acc.execs += 1
                         acc.transitions += len(obs)
